@@ -57,7 +57,7 @@ func verifRowText(i int) string {
 
 // verifRunRounds: the former in-harness copy of main's round loop (no goroutine, no os.Args,
 // no file system); kept for the rune-level jobs whose input is a symbolic rune slice.
-func verifRunRounds(src, file string, flags *cmd.ExecuteFlags, targetRow int) {
+func verifRunRounds(src, file string, flags *cmd.ExecuteFlags, targetRow int, isLoad bool) {
 	for _, round := range context.GetRounds() {
 		lr := reader.VerifNew([]rune(src))
 		p := parser.New(lexer.New(lr), file)
@@ -65,7 +65,7 @@ func verifRunRounds(src, file string, flags *cmd.ExecuteFlags, targetRow int) {
 			p.LspTargetRow = targetRow
 		}
 		cleanSimpleIdentifires()
-		evaluationLoop(p, flags, round, false)
+		evaluationLoop(p, flags, round, isLoad)
 	}
 }
 
